@@ -209,20 +209,20 @@ def gen_update_args(rng, opts=None):
         if rng.random() < 0.4:
             if rng.random() < 0.5:
                 n = rng.choice([1, 1, 2])
-                a["tags"] = {"static": {rng.choice(TAG_KEYS + ["n", "f", "kj", ""]): rng.choice(TAG_VALS) for _ in range(n)}}
+                a["tags"] = {"static": {rng.choice(TAG_KEYS + ["n", "f", "kj", "", "k j", "k,j"]): rng.choice(TAG_VALS) for _ in range(n)}}
             else:
                 a["tags"] = {"call": rng.choice(["tags_add_k", "tags_only_new", "tags_empty", "tags_same", "tags_none_j", "tags_inplace_add", "tags_inplace_pop"])}
         if rng.random() < 0.4:
             if rng.random() < 0.5:
                 n = rng.choice([1, 1, 2])
-                a["fields"] = {"static": {rng.choice(FIELD_KEYS + ["n", "xy", ""]): rng.choice(FIELD_VALS + [2.0000000001, 1.0000000000000002]) for _ in range(n)}}
+                a["fields"] = {"static": {rng.choice(FIELD_KEYS + ["n", "xy", "", "x y", "x,y"]): rng.choice(FIELD_VALS + [2.0000000001, 1.0000000000000002]) for _ in range(n)}}
             else:
                 a["fields"] = {"call": rng.choice(["fields_inc_x", "fields_only_new", "fields_empty", "fields_same", "fields_none_y", "fields_inplace_set", "fields_inplace_clear", "fields_nudge_x", "fields_scale_x"])}
         if rng.random() < 0.25:
-            ks = rng.sample(TAG_KEYS + ["n", "kj", "f"], rng.choice([1, 1, 2]))
+            ks = rng.sample(TAG_KEYS + ["n", "kj", "f", "k j", "k,j"], rng.choice([1, 1, 2]))  # a key is a literal, blanks and commas included
             a["unset_tags"] = ks[0] if len(ks) == 1 and rng.random() < 0.5 else ks
         if rng.random() < 0.25:
-            ks = rng.sample(FIELD_KEYS + ["n", "xy"], rng.choice([1, 1, 2]))
+            ks = rng.sample(FIELD_KEYS + ["n", "xy", "x y", "x,y"], rng.choice([1, 1, 2]))
             a["unset_fields"] = ks[0] if len(ks) == 1 and rng.random() < 0.5 else ks
         if ("tags" in a and "static" in a["tags"]) or ("fields" in a and "static" in a["fields"]):
             if rng.random() < 0.3:
